@@ -31,6 +31,9 @@ type solver struct {
 	kind                         string // "z3" or "cvc5" (string mode)
 	Restarts                     int
 	restarted                    bool
+	seq                          int
+	lastBy                       string // which solver answered the last check
+	lastQuery                    string // file holding the last fall-back query (kept on request)
 }
 
 var solverSeq int32
@@ -85,6 +88,14 @@ func (s *solver) raw(cmd string) {
 
 var solverLog = os.Getenv("GOSMX_SOLVERLOG")
 
+func (s *solver) logResp(t string) {
+	if solverLog != "" {
+		f, _ := os.OpenFile(fmt.Sprintf("%s.%d", solverLog, s.id), os.O_APPEND|os.O_CREATE|os.O_WRONLY, 0644)
+		f.WriteString(";; <- " + strings.ReplaceAll(t, "\n", " ") + "\n")
+		f.Close()
+	}
+}
+
 func (s *solver) declare(d string) {
 	s.decls = append(s.decls, d)
 	s.raw(d)
@@ -127,11 +138,14 @@ func (s *solver) readSexp() string {
 	select {
 	case r := <-ch:
 		if r.err != nil {
+			s.logResp(fmt.Sprintf("ERR %v", r.err))
 			s.restart()
 			return "unknown"
 		}
+		s.logResp(r.txt)
 		return r.txt
 	case <-time.After(limit):
+		s.logResp("WATCHDOG")
 		s.restart()
 		return "unknown"
 	}
@@ -194,35 +208,83 @@ func (s *solver) readSexp1() string {
 	}
 }
 
+// roundTrip reads the answers of everything sent so far up to a fresh echo
+// marker. Any "(error" among them - also an unsolicited one for an earlier
+// push/assert, e.g. z3's "push canceled" when its timer fires inside a push -
+// means the solver's assertion stack can no longer be trusted: the caller
+// must restart it. Reading up to a marker (instead of "one answer per
+// command") keeps the dialogue in step whatever the solver prints.
+func (s *solver) roundTrip() (answers []string, bad bool) {
+	s.seq++
+	mark := fmt.Sprintf("@@%d@@", s.seq)
+	s.raw("(echo \"" + mark + "\")")
+	for {
+		r := s.readSexp()
+		if s.restarted {
+			return nil, true
+		}
+		t := strings.Trim(strings.TrimSpace(r), "\"")
+		if t == mark {
+			return answers, bad
+		}
+		if strings.HasPrefix(strings.TrimSpace(r), "(error") {
+			bad = true
+			if os.Getenv("GOSMX_TRACE") != "" {
+				fmt.Fprintln(os.Stderr, "solver error:", r)
+			}
+			continue
+		}
+		if strings.HasPrefix(t, "@@") {
+			continue // a stale marker
+		}
+		answers = append(answers, r)
+	}
+}
+
 // check decides stack ∧ extra. Returns "sat", "unsat" or "unknown".
 func (s *solver) check(extra string, vars []string) (string, map[string]string) {
 	t0 := time.Now()
 	s.Queries++
 	defer func() { s.Dur += time.Since(t0) }()
+	s.restarted = false
 	s.raw("(push)")
 	if extra != "" {
 		s.raw("(assert " + extra + ")")
 	}
 	s.raw("(check-sat)")
-	s.restarted = false
-	r := s.readSexp()
+	ans, bad := s.roundTrip()
+	r := "unknown"
+	if !bad && len(ans) == 1 {
+		r = strings.TrimSpace(ans[0])
+	}
 	var model map[string]string
-	if r == "sat" && len(vars) > 0 {
+	if !bad && r == "sat" && len(vars) > 0 {
 		s.raw("(get-value (" + strings.Join(vars, " ") + "))")
-		model = parseModel(s.readSexp())
+		var ma []string
+		ma, bad = s.roundTrip()
+		if !bad && len(ma) == 1 {
+			model = parseModel(ma[0])
+		}
+		if len(model) == 0 {
+			// a "sat" without a model cannot be replayed: let the portfolio decide
+			r = "unknown"
+		}
 	}
-	if !s.restarted {
-		s.raw("(pop)")
-	}
-	if strings.HasPrefix(r, "(error") {
-		fmt.Fprintln(os.Stderr, "solver error:", r)
+	if bad || len(ans) != 1 {
+		if !s.restarted {
+			s.restart()
+		}
 		r = "unknown"
+	} else {
+		s.raw("(pop)")
 	}
 	if r == "sat" || r == "unsat" {
 		if s.kind == "cvc5" {
 			s.BySolver["cvc5-incremental"]++
+			s.lastBy = "cvc5-incremental"
 		} else {
 			s.BySolver["z3-5.1"]++
+			s.lastBy = "z3-5.1"
 		}
 		return r, model
 	}
@@ -287,8 +349,11 @@ func (s *solver) fallback(extra string, vars []string) (string, map[string]strin
 			return
 		}
 		if first == "sat" && !strings.Contains(rest, "(error") {
-			ch <- ans{name, "sat", parseModel(rest)}
-			return
+			m := parseModel(rest)
+			if len(vars) == 0 || len(m) > 0 {
+				ch <- ans{name, "sat", m}
+				return
+			}
 		}
 		ch <- ans{name, "unknown", nil}
 	}
@@ -307,6 +372,7 @@ func (s *solver) fallback(extra string, vars []string) (string, map[string]strin
 		a := <-ch
 		if a.res != "unknown" {
 			s.BySolver[a.name]++
+			s.lastBy = a.name
 			cancel()
 			return a.res, a.model
 		}
